@@ -1,0 +1,36 @@
+//go:build verif
+
+package tbtcpg
+
+import (
+	"github.com/ipfs/go-log/v2"
+)
+
+// Verification hook (build tag verif): re-exports existing identifiers only.
+
+// VerifC33NewProposalGenerator builds a ProposalGenerator over the given task
+// list (the production constructor hard-wires the five real tasks).
+func VerifC33NewProposalGenerator(tasks []ProposalTask) *ProposalGenerator {
+	return &ProposalGenerator{tasks: tasks}
+}
+
+// VerifC33FindPendingRedemptions re-exports findPendingRedemptions.
+func VerifC33FindPendingRedemptions(
+	fnLogger log.StandardLogger,
+	chain Chain,
+	walletPublicKeyHash [20]byte,
+	currentBlockNumber uint64,
+	requestsLimit uint16,
+	requestTimeout uint32,
+	requestMinAge uint32,
+) ([]*RedemptionRequest, error) {
+	return findPendingRedemptions(
+		fnLogger,
+		chain,
+		walletPublicKeyHash,
+		currentBlockNumber,
+		requestsLimit,
+		requestTimeout,
+		requestMinAge,
+	)
+}
